@@ -142,12 +142,17 @@ void AttributesTools::resolveVariables(
   for (map<string, string>::iterator it = am.begin(); it != am.end(); it++)
   {
     string value = it->second;
+    // Variables being expanded in 'value', each with the number of characters that follow its expansion:
+    vector<pair<string, string::size_type>> expanding;
     string::size_type index1 = value.find(TextTools::toString(varCode) + TextTools::toString(varBeg));
     while (index1 != string::npos)
     {
       string::size_type index2 = value.find(TextTools::toString(varEnd), index1);
       if (index2 != string::npos)
       {
+        // Expansions that end before this reference are over:
+        while (!expanding.empty() && value.size() - expanding.back().second <= index1)
+          expanding.pop_back();
         string varName  = value.substr(index1 + 2, index2 - index1 - 2);
         map<string, string>::iterator varIt = am.find(varName);
         string varValue = "";
@@ -159,14 +164,24 @@ void AttributesTools::resolveVariables(
         }
         else
         {
-          if (varIt->second == value)
+          // A variable that refers to itself, directly or through other variables:
+          bool cyclic = (varIt == it);
+          for (const auto& e : expanding)
+          {
+            if (e.first == varName)
+              cyclic = true;
+          }
+          if (cyclic)
           {
             if (ApplicationTools::error)
               (*ApplicationTools::error << "Variable '" << varName << "' definition is cyclic and was ignored.").endLine();
             varValue = "";
           }
           else
+          {
             varValue = varIt->second;
+            expanding.push_back(make_pair(varName, value.size() - index2 - 1));
+          }
         }
         string newValue = value.substr(0, index1) + varValue + value.substr(index2 + 1);
         it->second = newValue;
